@@ -538,9 +538,25 @@ def shape_key(field, ka, kb, prefix="pstr:"):
     return "%s%s:%s" % (prefix, field, ("%s/%s" % (SHAPE[ka], SHAPE[kb])) if (field in BINARY or prefix != "pstr:") else SHAPE[ka])
 
 
+def canon(j):
+    """vrun's term JSON with strings, explicit lists and '.'-chains ending in a list all written as {"l": [...]}"""
+    if "s" in j: return {"l": [{"a": c} for c in j["s"]]}
+    if "l" in j: return {"l": [canon(x) for x in j["l"]]}
+    if "c" in j:
+        if j["c"][0] == "." and len(j["c"]) == 3:
+            items, t = [], j
+            while "c" in t and t["c"][0] == "." and len(t["c"]) == 3:
+                items.append(canon(t["c"][1])); t = t["c"][2]
+            t = canon(t)
+            if "l" in t: return {"l": items + t["l"]}
+            return {"open": items, "tail": t}
+        return {"c": [j["c"][0]] + [canon(x) for x in j["c"][1:]]}
+    return j
+
+
 def obs_key(ans):
     if isinstance(ans, dict) and "b" in ans and "O" in ans["b"]:
-        if "_key" not in ans: ans["_key"] = repr(terms.from_json(ans["b"]["O"]))    # strings and explicit lists are the same term
+        if "_key" not in ans: ans["_key"] = json.dumps(canon(ans["b"]["O"]), sort_keys=True)    # strings and explicit lists are the same term
         return ans["_key"]
     return None
 
